@@ -30,8 +30,22 @@ thread_local! {
 
 static CTL: Mutex<Option<Arc<Ctl>>> = Mutex::new(None);
 
+/// lock mask of the store under test (set for the duration of `run`)
+struct Probe(Box<dyn Fn() -> u8>);
+unsafe impl Send for Probe {}
+static PROBE: Mutex<Option<Probe>> = Mutex::new(None);
+
+/// points that sit INSIDE a lock-protected region of the code as it is: the model takes the
+/// region as one step, so a thread parks there only if the lock is NOT held when it arrives
+/// (the work was moved out of the guarded region) — then other threads may run in between
+fn guarded_by_state_lock(id: &str) -> bool { id == "blob.before_open" }
+
 fn park(id: &str) {
     let Some(t) = TID.with(|c| c.get()) else { return };
+    if guarded_by_state_lock(id) {
+        let held = PROBE.lock().unwrap().as_ref().map_or(true, |p| (p.0)() & 2 != 0);
+        if held { return; }
+    }
     let Some(ctl) = CTL.lock().unwrap().clone() else { return };
     let mut st = ctl.states.lock().unwrap();
     st[t] = TState::Parked(id.to_string());
@@ -172,6 +186,12 @@ pub fn run<K: HKey>(cas: &Cas<K>, stats: Option<&OrphanStats<K>>, dir: &std::pat
     let n = programs.len();
     let ctl = Arc::new(Ctl { states: Mutex::new(vec![TState::Running; n]), cv: Condvar::new() });
     *CTL.lock().unwrap() = Some(ctl.clone());
+    {
+        // the closure borrows `cas`; it is removed again before `run` returns
+        let f: Box<dyn Fn() -> u8 + '_> = Box::new(move || cas.verif_lock_mask());
+        let f: Box<dyn Fn() -> u8 + 'static> = unsafe { std::mem::transmute(f) };
+        *PROBE.lock().unwrap() = Some(Probe(f));
+    }
     let results: Arc<Mutex<Vec<Vec<String>>>> = Arc::new(Mutex::new(vec![Vec::new(); n]));
     // an idle thread whose next operation begins with an index read cannot start while the state
     // lock is held exclusively (get_range's size pre-check has no yield point before it)
@@ -205,7 +225,11 @@ pub fn run<K: HKey>(cas: &Cas<K>, stats: Option<&OrphanStats<K>>, dir: &std::pat
         };
         let mut ok = wait_all(&ctl);
         let explicit: Option<Vec<usize>> = policy.strip_prefix("sched=").map(|s| if s.is_empty() { vec![] } else { s.split(',').map(|x| x.parse().unwrap()).collect() });
-        let mut rng = Rng::new(policy.strip_prefix("rand=").and_then(|s| s.parse().ok()).unwrap_or(0));
+        let mut rng = Rng::new(policy.strip_prefix("rand=").or(policy.strip_prefix("stall=")).and_then(|s| s.parse().ok()).unwrap_or(0));
+        // `stall=<seed>`: one long preemption — a victim thread runs `stall_after` steps, is then
+        // held back while any other thread can run, and finishes last
+        let stall: Option<(usize, usize)> = policy.strip_prefix("stall=").map(|_| (rng.below(n as u64) as usize, rng.below(9) as usize));
+        let mut victim_steps = 0usize;
         let mut step_no = 0usize;
         let mut cur: Option<usize> = None;
         while ok {
@@ -222,8 +246,17 @@ pub fn run<K: HKey>(cas: &Cas<K>, stats: Option<&OrphanStats<K>>, dir: &std::pat
                 Some(s) => { if step_no >= s.len() { break; } s[step_no] }
                 None => {
                     if enabled.is_empty() { obs.push("DEADLOCK".into()); break; }
+                    if let Some((victim, after)) = stall {
+                        let others: Vec<usize> = enabled.iter().copied().filter(|t| *t != victim).collect();
+                        if victim_steps < after && enabled.contains(&victim) { victim_steps += 1; victim }
+                        else if !others.is_empty() {
+                            // the others run one after the other, each to completion where possible
+                            match cur { Some(c) if others.contains(&c) => c, _ => others[rng.below(others.len() as u64) as usize] }
+                        } else { victim }
+                    } else {
                     // mostly keep running the current thread (few preemptions), sometimes switch
                     match cur { Some(c) if enabled.contains(&c) && rng.chance(2, 3) => c, _ => enabled[rng.below(enabled.len() as u64) as usize] }
+                    }
                 }
             };
             cur = Some(pick);
@@ -248,6 +281,7 @@ pub fn run<K: HKey>(cas: &Cas<K>, stats: Option<&OrphanStats<K>>, dir: &std::pat
         }
         // let everything run to completion (unparks in round-robin) so the scope can join
         for _ in 0..2000 {
+            if obs.last().map_or(false, |o| o.ends_with("TIMEOUT") || o == "DEADLOCK") { break; }
             let st = ctl.states.lock().unwrap().clone();
             if st.iter().all(|s| *s == TState::Done) { break; }
             let mask = cas.verif_lock_mask() & 3;
@@ -260,7 +294,8 @@ pub fn run<K: HKey>(cas: &Cas<K>, stats: Option<&OrphanStats<K>>, dir: &std::pat
                     let mut s = ctl.states.lock().unwrap();
                     s[t] = TState::Running;
                     ctl.cv.notify_all();
-                    let _ = ctl.cv.wait_timeout_while(s, Duration::from_millis(1500), |s| s[t] == TState::Running).unwrap();
+                    let (_s, to) = ctl.cv.wait_timeout_while(s, Duration::from_millis(1500), |s| s[t] == TState::Running).unwrap();
+                    if to.timed_out() { break; }
                 }
                 None => std::thread::sleep(Duration::from_millis(5)),
             }
@@ -270,8 +305,22 @@ pub fn run<K: HKey>(cas: &Cas<K>, stats: Option<&OrphanStats<K>>, dir: &std::pat
         let mut s = ctl.states.lock().unwrap();
         for x in s.iter_mut() { if matches!(x, TState::Parked(_)) { *x = TState::Running; } }
         ctl.cv.notify_all();
+        // threads blocked inside the library for good (a real deadlock) can never be joined:
+        // answer the request here and leave the process; the harness starts a new worker
+        let (s, to) = ctl.cv.wait_timeout_while(s, Duration::from_secs(2), |s| s.iter().any(|x| *x != TState::Done)).unwrap();
+        drop(s);
+        if to.timed_out() {
+            obs.push("HUNG".into());
+            let line = format!("sched={} {}", sched.iter().map(|t| t.to_string()).collect::<Vec<_>>().join(","), obs.join(" | "));
+            use std::io::Write;
+            let mut o = std::io::stdout();
+            let _ = writeln!(o, "{line}");
+            let _ = o.flush();
+            unsafe { libc::_exit(0) }
+        }
     });
     *CTL.lock().unwrap() = None;
+    *PROBE.lock().unwrap() = None;
     let res = results.lock().unwrap().iter().map(|v| v.join(",")).collect::<Vec<_>>().join("/");
     let (fin, dangling) = observe(cas, dir);
     // exactness at quiescence: files under cas/ == hashes referenced by the index
